@@ -472,7 +472,30 @@ def r5_position_map(R) -> None:
         for m in cp:
             idx, v = m.ast.targets[0].slice, m.ast.value
             nm_ = text(m.ast.targets[0].value.slice)
-            src_ok = isinstance(v, ast.Subscript) and f.etext(m.id, v.value, stop=(nm_,)) in (f'self[{nm_}]', f"self.__dict__['_' + {nm_}]")
+            # where the old values are read from: the series of the deep copy the result started as (held in a local before the
+            # replacement array is stored), or the original's - then element by element deep-copied, else the result and the
+            # original share whatever objects the series holds (the per-period Trace objects of a tracer-extended model)
+            vv = v
+            deep_elem = False
+            if is_call(vv, 'copy.deepcopy', 'deepcopy') and len(vv.args) == 1:
+                vv, deep_elem = vv.args[0], True
+            src_txt = f.etext(m.id, vv.value, stop=(nm_, res)) if isinstance(vv, ast.Subscript) else '?'
+            from_orig = src_txt in (f'self[{nm_}]', f"self.__dict__['_' + {nm_}]", f"self.__dict__[f'_{{{nm_}}}']")
+            from_copy = src_txt in (f'{res}[{nm_}]', f"{res}.__dict__['_' + {nm_}]", f"{res}.__dict__[f'_{{{nm_}}}']")
+            if from_copy and isinstance(vv.value, ast.Name):
+                # the local was bound before the replacement array was stored in the result
+                repl = [x for x in f.cfg.nodes if x.kind == 'stmt' and isinstance(x.ast, ast.Assign) and dict_slot(x.ast.targets[0]) is not None
+                        and dict_slot(x.ast.targets[0])[0] == res and is_underscore_key(dict_slot(x.ast.targets[0])[1]) is not None]
+                defs_ = [s_ for (s_, _dv) in f.lf.values_reaching(m.id, vv.value.id)]
+                from_copy = bool(repl) and all(any(f.cfg.reaches(d_, x.id) and not f.cfg.reaches(x.id, d_) or (d_ in f.dom[x.id]) for x in repl) for d_ in defs_)
+            elif from_copy:
+                from_copy = False       # read after the replacement: that is the new array itself
+            src_ok = isinstance(vv, ast.Subscript) and (from_copy or from_orig)
+            if src_ok and from_orig and not deep_elem:
+                R.violation(VR, 'shares-elements:' + text(m.ast)[:50],
+                            f'`{text(m.ast)[:70]}` copies each old value from the original object itself: for a series that holds objects (dtype object - the per-period Trace of a '
+                            f'tracer-extended model) the result and the original then share the very same objects (a traced solve on the reindexed model grows the original\'s trace), '
+                            f'although the result started as a deep copy; read the old values from that copy, or deep-copy each element', where=f.where(m))
             new_v = old_v = None
             lp2 = [f.cfg.nodes[i] for i in m.loops]
             if lp2:
@@ -512,7 +535,7 @@ def r5_position_map(R) -> None:
             if new_v is None:
                 raise Unknown(f'{VR}: `{text(m.ast)[:70]}` copies values into the result in a form this rule does not read (slice / window / mask)')
             n_read += 1
-            okc = src_ok and text(idx) == new_v and isinstance(v, ast.Subscript) and text(v.slice) == old_v
+            okc = src_ok and text(idx) == new_v and isinstance(vv, ast.Subscript) and text(vv.slice) == old_v
             R.check(okc, VR, 'map-consume:' + text(m.ast), 'values are copied new <- old through the pairs (no crossing)',
                     f'`{text(m.ast)}` crosses or misuses the position pairs (new is `{new_v}`, old is `{old_v}`)', where=f.where(m))
     # span of the result
